@@ -81,6 +81,8 @@ structure Packet where
   -- (channel, port, sequence)): the hub sent this packet as a FORWARD of the packet received on hub channel
   -- `fwd.1` with sequence `fwd.2` (the "refund channel / sequence")
   fwd : Option (Nat × Nat) := none
+  -- ghost: (sent packets) the receiver named in the transfer data decodes to a blocked hub account
+  cpBlocked : Bool := false
   deriving DecidableEq, Repr, Inhabited
 
 structure Order where
@@ -140,6 +142,7 @@ structure Sent where
   unescrow : Bool
   amount : Int
   fwd : Option (Nat × Nat) := none   -- packet-forward-middleware's `InFlightPacket` (refund channel, refund sequence)
+  rcvBlocked : Bool := false         -- the counterparty-side receiver string is the bech32 of a blocked hub module account
   deriving DecidableEq, Repr, Inhabited
 
 /-- ghost log of release effects: one entry per real (not dry-run) execution of the ICS-20 callback -/
@@ -409,6 +412,13 @@ def eibcOnRefund (s : St) (p : Packet) : M St :=
   if p.amount - refundFee s p ≤ 0 then .error .invalid else
   .ok (setOrder s (newOrder s p (p.amount - refundFee s p) (refundFee s p) p.target))
 
+/-- `EIBCDemandOrderHandler` as a whole for ON_ACK / ON_TIMEOUT: `BlockedAddr(data.Receiver)` is applied
+    to every packet type — for a packet the hub SENT `data.Receiver` is the address on the counterparty; if
+    that string happens to be the bech32 of a blocked hub account the handler fails and with it the whole
+    `MsgAcknowledgement` (error ack) / `MsgTimeout` above the finalized height -/
+def eibcRefundHandler (s : St) (p : Packet) : M St :=
+  if p.cpBlocked then .error .invalid else eibcOnRefund s p
+
 -- ---------------------------------------------------------------- IBC callbacks (x/delayedack/ibc_middleware.go)
 
 inductive DRef
@@ -485,7 +495,7 @@ def getSent (s : St) (c seq : Nat) : Option Sent := s.sent.find? (fun x => x.cha
 def mkSentPacket (s : St) (x : Sent) (t : PType) (ph : Nat) (rid : Bytes) (ackErr : Bool) : Packet :=
   { status := .pending, rollappId := rid, proofHeight := ph, ptype := t, srcChan := hubIdOf s x.chan, seq := x.seq, chan := x.chan,
     denom := x.denom, unescrow := x.unescrow, amount := x.amount, target := x.sender, orig := none, ackErr := ackErr, perr := none,
-    fwd := x.fwd }
+    fwd := x.fwd, cpBlocked := x.rcvBlocked }
 
 def sentType (isTimeout : Bool) : PType := if isTimeout then .onTimeout else .onAck
 
@@ -509,7 +519,7 @@ def ackPass (s0 : St) (p : Packet) (ra : Option Bytes) (settle : Bool) : M (Opti
 def ackDelay (s0 : St) (p : Packet) (refund : Bool) : M (Option St) :=
   if (refund || p.fwd.isSome) && (icsRefund s0 p).isNone then .error (refundErr s0 p) else
   if refund && p.fwd.isNone then   -- `isForwarded`: no demand order for a packet the packet-forward middleware sent
-    match eibcOnRefund (setPacket (addByAddr s0 p.target (pkey p)) p) p with
+    match eibcRefundHandler (setPacket (addByAddr s0 p.target (pkey p)) p) p with
     | .error e => .error e
     | .ok s2 => .ok (some s2)
   else .ok (some (setPacket (addByAddr s0 p.target (pkey p)) p))
@@ -1038,12 +1048,29 @@ inductive Op
   | block
   | chanClose (c : Nat)
   | chanOpen (c : Nat)
+  | timeoutOnClose (c seq : Nat)
+  | sendBlk (a : Addr) (c : Nat) (d : Denom) (amt : Int)   -- `MsgTransfer` whose receiver string is a blocked hub account's bech32
   deriving Repr, Inhabited
 
 /-- the channel end's state is written: CLOSED (`ChanCloseConfirm`) or OPEN again -/
 def setChanClosed (s : St) (c : Nat) (closed : Bool) : M St :=
   if s.chans.length ≤ c then .error .invalid else
   .ok { s with closed := if closed then (if s.closed.contains c then s.closed else s.closed ++ [c]) else s.closed.filter (· != c) }
+
+def markBlk (s : St) (k q : Nat) : St :=
+  { s with sent := s.sent.map (fun x => if x.chan == k && x.seq == q then { x with rcvBlocked := true } else x) }
+
+def sendBlk (s : St) (a : Addr) (c : Nat) (d : Denom) (amt : Int) : M St :=
+  match sendTransfer s a c d amt with
+  | .ok s1 => .ok (markBlk s1 c (getNextSeq s c))
+  | .error e => .error e
+
+/-- `MsgTimeoutOnClose`: `IBCProofHeightDecorator` (app/ante) stashes a proof height for `MsgRecvPacket`,
+    `MsgAcknowledgement` and `MsgTimeout` only, so delayedack's `OnTimeoutPacket` finds none
+    (`UnpackPacketProofHeight`: `gerrc.ErrInternal`, before the channel is even looked at) and the whole
+    message fails — on rollapp channels and on plain ones alike.  (Redelivery is core's no-op before that.) -/
+def timeoutOnClose (s : St) (c seq : Nat) : M St :=
+  if !s.commits.contains (c, seq) then .ok s else .error .internal
 
 inductive Out
   | ok | err (e : Err) | recv (r : RecvRes) | replay
@@ -1083,6 +1110,8 @@ def step (s : St) : Op → St × Out
   | .block => ({ s with h := s.h + 1 }, .ok)
   | .chanClose c => ofM s (setChanClosed s c true)
   | .chanOpen c => ofM s (setChanClosed s c false)
+  | .timeoutOnClose c seq => ofM s (timeoutOnClose s c seq)
+  | .sendBlk a c d amt => ofM s (sendBlk s a c d amt)
 
 def run (s : St) (ops : List Op) : St := ops.foldl (fun s o => (step s o).1) s
 
